@@ -27,7 +27,7 @@ var ttmlAttrValues = map[string][]string{
 	"displayAlign": {"before", "center", "after"}, "extent": {"100% 10%", "80% 20%", "560px 62px"}, "fontFamily": {"sansSerif", "proportionalSansSerif", "Arial, Helvetica"},
 	"fontSize": {"100%", "18px", "1c 2c"}, "fontStyle": {"normal", "italic"}, "fontWeight": {"normal", "bold"}, "lineHeight": {"normal", "125%"}, "opacity": {"1.0", "0.5"},
 	"origin": {"0% 90%", "10% 80%", "10%  80%", " 5% 85% "}, "overflow": {"visible", "hidden"}, "padding": {"0px", "1c 2c"}, "showBackground": {"always", "whenActive"},
-	"textAlign": {"center", "left", "end"}, "textDecoration": {"none", "underline"}, "textOutline": {"black 1px", "none"}, "unicodeBidi": {"normal", "embed"},
+	"textAlign": {"center", "left", "end", "justify", "start", "right"}, "textDecoration": {"none", "underline"}, "textOutline": {"black 1px", "none"}, "unicodeBidi": {"normal", "embed"},
 	"visibility": {"visible", "hidden"}, "wrapOption": {"wrap", "noWrap"}, "writingMode": {"lrtb", "tbrl"}, "zIndex": {"0", "3", "-2"},
 }
 
